@@ -25,10 +25,20 @@ REQUIRED_THEOREMS = [
     "M1LSeq.current_call_refines_M1L",
     "M1LSeq.next_call_is_fresh",
     "M1LSeq.clean_call_returns_seq",
+    "M1LU.unordered_completion_order",
+    "M1LU.unordered_queue_is_registration_order",
+    "M1LU.unordered_each_exactly_once_partial",
+    "M1LU.unordered_no_batch_twice",
+    "M1LU.registration_once",
+    "M1LU.mutex",
+    "M1LU.pulls_only_by_lock_owner",
+    "M1LU.no_deadlock",
+    "M1LU.error_surfaces_unordered",
 ]
-EXTRA_LEAN_MODULES = ("JoblibProofs.M1L", "JoblibProofs.M1LSeq")
+EXTRA_LEAN_MODULES = ("JoblibProofs.M1L", "JoblibProofs.M1LSeq", "JoblibProofs.M1LU")
 EXTRA_LEAN_TARGETS = ("drv_m1l", "drv_m1lseq", "drv_m1lu")
 TRUSTED_EXTRA = [
+    "M1LU (lean/JoblibModel/ParallelLockU.lean, theorems M1LU.*): the model M1L extended at the SAME granularity to return_as='generator_unordered' and to timeout (fake clock: one tick per time.sleep of the retrieval loop; time.time() is not a scheduling point): _jobs_set, the control-job pick under the lock, get_status with a timeout, _register_outcome(TimeoutError) run by the caller without the lock, the unlocked write of _jobs_set in finally; one call on a fresh object; next(iter(_jobs_set)) picks an arbitrary element: the model takes the pick from a script, the harness installs an insertion-ordered set that follows the same script (so every pick can be forced; the theorems hold for all scripts); tied by step-log equality of forced real-thread schedules (harness/m1_lock.py, scenarios with ra=2 or a timeout -> drv_m1lu); proved for all interleavings: mutex / lock owner, pulls only by the lock owner, no deadlock, completion(=registration)-order delivery, timeout only after more than `timeout` ticks on one pending tracker, _raise_error_fast finds the failed job; NOT proved for M1LU (checked by the tie's oracles): item-level exactly-once / all-n-at-exhaustion (M1L's dispatch-side proofs were not ported), termination (the trace-level 'registered TimeoutError => the call raises' IS proved: M1LU.timeout_registered_raises_ordered / _unordered)",
     "M1L / M1L-Seq (theorems M1L.*, M1LSeq.*): the ordered generator consumed to the end and sequences of calls with callback threads of earlier calls still alive, at lock-boundary granularity, every interleaving; tied by step-log equality of forced real-thread schedules (harness/m1_lock.py); abandoned generators and generator_unordered are NOT in these two models (M1 only)",
     "M1 granularity: completion callbacks are atomic and happen at hook points of the caller (configure, compute_batch_size, sleep, consumer "
     "pauses, inside backend.abort_everything, between two calls and after the last one); interleavings inside a callback or between two bytecodes of the caller are not in the model",
